@@ -11,6 +11,8 @@ CONSTANTS
   OtherForAll = FALSE
   EmptyMeansAll = TRUE
   StatusSucceeds = FALSE
+  AliasCallerSet = FALSE
+  MemoDecision = FALSE
   StarWithCreds = FALSE
 INVARIANT OnlyAllowedOrigins
 INVARIANT NoOriginUntouched
